@@ -155,15 +155,37 @@ pub fn gen_case(seed: u64, idx: u64, uni: &UniCfg) -> Case {
     }
     c.world = Some(world());
     c.jobs = vec![ops];
-    c.extra = json!({"target": target, "symlink_handle": is_link, "flags": flags, "newfd": newfd, "history": with_history, "overmount": !mounts.is_empty()});
+    // one third of the histories also let the attacker act at the system-call
+    // boundaries inside the reopen itself
+    let inside = rng.chance(1, 3);
+    if inside {
+        c.plan = crate::sup::Plan {
+            seeded: Some(crate::sup::Seeded { seed: rng.next(), p_switch: 0, p_attack: *rng.pick(&[100u64, 300, 600]), p_fault: 0, max_attacks: 3, pct_depth: 0 }),
+            ..Default::default()
+        };
+    }
+    c.extra = json!({"target": target, "symlink_handle": is_link, "flags": flags, "newfd": newfd, "history": with_history, "overmount": !mounts.is_empty(), "attacker_inside_reopen": inside});
     c
 }
 
 pub struct H {
     pub handle: Option<crate::sup::FdFacts>,
     pub handle_fl: i32,
+    pub target: String,
+    pub seq: u64,
+    pub reopen_idx: usize,
 }
 impl Hooks for H {
+    /// attacker windows *inside* the reopen call: the same repertoire as the history
+    fn attack(&mut self, rng: &mut crate::rng::Rng, _w: &crate::world::World, ev: &crate::sup::Ev) -> Vec<Mutation> {
+        if ev.op != Some(self.reopen_idx) {
+            return Vec::new(); // only inside the reopen: the handle itself is resolved undisturbed
+        }
+        self.seq += 1;
+        let mut v = history(rng, &self.target, 1000 + self.seq);
+        v.truncate(2);
+        v
+    }
     fn end_op(&mut self, _ctx: &mut RunCtx, rec: &mut OpRecord) {
         if let (Op::Resolve { .. }, Some(f)) = (&rec.spec.op, &rec.facts) {
             self.handle = Some(f.clone());
@@ -176,6 +198,7 @@ impl Hooks for H {
 pub fn baseline_of(case: &Case) -> Case {
     let mut b = case.clone();
     b.jobs[0].retain(|o| !matches!(o.op, Op::Sup { .. }));
+    b.plan = crate::sup::Plan::default();
     b
 }
 
@@ -305,7 +328,9 @@ pub fn run(u: &mut Universe, b: &Batch, st: &mut Stats) {
             gen_case(b.seed, idx, &b.uni)
         };
         // baseline first
-        let mut hb = H { handle: None, handle_fl: 0 };
+        let tgt = case.extra["target"].as_str().unwrap_or("dir/file").to_string();
+        let ridx = case.jobs[0].iter().position(|o| matches!(o.op, Op::Reopen { .. })).unwrap_or(usize::MAX);
+        let mut hb = H { handle: None, handle_fl: 0, target: tgt.clone(), seq: 0, reopen_idx: usize::MAX };
         let base_case = baseline_of(&case);
         let outb = run_case(u, &base_case, &mut hb, false);
         let base = outb.records.iter().find(|r| matches!(r.spec.op, Op::Reopen { .. })).map(|r| r.outcome.clone());
@@ -323,7 +348,7 @@ pub fn run(u: &mut Universe, b: &Batch, st: &mut Stats) {
             let v = mk_violation(&base_case, &outb, "C09", &refine(&clause, &base_case), "reopen", detail);
             st.violation(&v);
         }
-        let mut h = H { handle: None, handle_fl: 0 };
+        let mut h = H { handle: None, handle_fl: 0, target: tgt.clone(), seq: 0, reopen_idx: ridx };
         let out = run_case(u, &case, &mut h, false);
         cleanup_mounts();
         if case.extra["overmount"].as_bool() == Some(true) {
@@ -338,8 +363,13 @@ pub fn run(u: &mut Universe, b: &Batch, st: &mut Stats) {
         if let Some(r) = out.records.iter().find(|r| matches!(r.spec.op, Op::Reopen { .. })) {
             st.count(&format!("outcome.{}", r.outcome.class().split(':').take(3).collect::<Vec<_>>().join(":")), 1);
         }
-        if case.jobs[0].iter().any(|o| matches!(o.op, Op::Sup { .. })) {
-            st.nontrivial.insert(case.hash());
+        if case.jobs[0].iter().any(|o| matches!(o.op, Op::Sup { .. })) || !out.decisions.is_empty() {
+            let mut hh = case.hash();
+            sys::fnv(&mut hh, format!("{:?}", out.decisions.iter().map(|d| d.to_json().to_string()).collect::<Vec<_>>()).as_bytes());
+            st.nontrivial.insert(hh);
+        }
+        if out.records.iter().any(|r| matches!(r.spec.op, Op::Reopen { .. }) && r.attacks_inside > 0) {
+            st.count("reopen_with_attacker_inside", 1);
         }
         for (clause, detail) in judge(&case, &out, &h, base.as_ref()) {
             let v = mk_violation(&case, &out, "C09", &refine(&clause, &case), "reopen", detail);
